@@ -110,7 +110,10 @@ def per_property():
 def seeded_table():
     metas = [json.loads((d / "meta.json").read_text()) for d in sorted((VERIF / "seeded").iterdir())]
     once = sum(1 for m in metas if m["confirmed"]["status"].startswith("caught at once"))
-    head = (f"{len(metas)} seeded changes are archived; every one is detected by the check of its property on the current machinery. "
+    gone = sum(1 for m in metas if "no longer manifests" in m["confirmed"]["status"])
+    head = (f"{len(metas)} seeded changes are archived; every one that still manifests on the current library is detected by the check "
+            f"of its property on the current machinery ({gone} no longer manifest: the code they relied on was repaired since - the "
+            "regression sweep of section 3.2 also lists those whose patch no longer applies). "
             f"{once} were caught by the checks as they were when the change arrived, {len(metas) - once} were missed at first or caught "
             "only as a broken correspondence without a failing input - each of those led to a stronger generator, stream or "
             "oracle, named in the `result` column. The later rounds asked for changes that a random differential harness is "
